@@ -397,6 +397,21 @@ Proof.
   - mir.
 Qed.
 
+Lemma run_squash_mirror : forall w r nm meta msg, mirror w -> mirror (fst (run_squash w r nm meta msg)).
+Proof.
+  intros w r nm meta msg H. unfold run_squash.
+  destruct (parse_ranges r) as [prs|]; [|exact H].
+  destruct (from_str nm) as [newn|]; [|exact H].
+  destruct (open_stack PAllow w) as [op|] eqn:Eo; [apply open_op_mir in Eo|exact H].
+  destruct (w_unmerged (op_world op)); [mir|].
+  destruct (negb (head_top_ok op)); [mir|].
+  match goal with |- mirror (fst (rres_bind _ ?r _)) => destruct r as [ps| |]; cbn [rres_bind]; [|mir|mir] end.
+  destruct (_ && _); [mir|].
+  destruct (Nat.ltb _ _); [mir|].
+  rewrite squash_exit_fst.
+  apply transact_mirror; [exact Eo|]. apply frame_squash_closure.
+Qed.
+
 Theorem step_mirror : forall lower_s w c, mirror w -> mirror (fst (step lower_s w c)).
 Proof.
   intros lower_s w c H. destruct c; cbn [step].
@@ -423,6 +438,7 @@ Proof.
   - now apply run_log_clear_mirror.
   - now apply run_edit_mirror.
   - now apply run_rebase_mirror.
+  - now apply run_squash_mirror.
   - destruct (open_stack PAllow w) as [op|] eqn:Eo; [|exact H]. now apply open_mirror in Eo.
   - now apply run_git_mirror.
   - now apply run_git_mirror.
